@@ -35,7 +35,9 @@ NOT_THEOREMS = ['stability clause (rewritten == written) for float fields: rende
                 'Spec.C01.floatClauses (dialect, half-unit accuracy under |x|*10^D<2^51, maximal decimals): evaluated per case']
 EXHAUSTIVE = {"quick": False, "thorough": False}
 
-DATE_FMTS = ["%Y/%m/%d", "%d/%m/%Y", "%Y-%m-%d %H:%M", "%d%m%y", "%H:%M:%S", "%Y%m%d%H%M%S", "%d/%m/%Y %H:%M:%S.%f", "%m/%Y", "%y-%m-%d"]
+DATE_FMTS = ["%Y/%m/%d", "%d/%m/%Y", "%Y-%m-%d %H:%M", "%d%m%y", "%H:%M:%S", "%Y%m%d%H%M%S", "%d/%m/%Y %H:%M:%S.%f", "%m/%Y", "%y-%m-%d",
+             # formats that also parse each other's output, with a different result (day <= 12): in a list the FIRST one that parses wins
+             "%m/%d/%Y", "%m%d%y", "%y%m%d", "%d-%m-%y"]
 
 
 def mk_line(case):
